@@ -346,3 +346,14 @@ package s3bolt
 //@ ensures [C02]     kept:   allstr(k, imp(all(j, 0, len(*objects), (*objects)[j] != k), bk_has(*bucketName, k) == old(bk_has(*bucketName, k))))
 //@ ensures [C02]     answer: imp(ret0 == nil, len(result.Deleted) + len(result.Error) == old(len(result.Deleted) + len(result.Error)) + len(*objects))
 //@ modifies bk_has(*bucketName), result.Deleted, result.Error, io_fails
+
+// C17/C10: every top-level bolt bucket except the bookkeeping bucket is reported, under its own name; the
+// bookkeeping bucket never is
+//@ func (*Backend).ListBuckets$1$1
+//@ props C17 C10 C02 C09
+//@ requires          args:   db != nil && *db != nil && bdb(*db) && (*db).timeSource != nil && metaBucket != nil && buckets != nil && allocated(name) &&
+//@                             imp(*metaBucket != nil, (*metaBucket).bucket != nil)
+//@ ensures [C17,C10] meta:   imp(str(name) == "_meta", ret0 == nil && len(*buckets) == old(len(*buckets)))
+//@ ensures [C02]     entry:  imp(str(name) != "_meta" && ret0 == nil, len(*buckets) == old(len(*buckets)) + 1 && (*buckets)[len(*buckets) - 1].Name == str(name))
+//@ ensures [C02]     keep:   all(i, 0, old(len(*buckets)), (*buckets)[i].Name == old((*buckets)[i].Name))
+//@ modifies *buckets, io_fails
